@@ -39,42 +39,43 @@ VARIABLES l,
           stale,     \* items yielded before the latest transport read (their bytes may have been overwritten)
           early,     \* items yielded while part of a further frame had already been handed over
           kf,        \* the known C11 deviation was witnessed in this scenario
+          gerr,      \* the item yielded last was reported as a general error (the stream may stop there)
           sid
-tvars == <<fr, total, maxb, got, k, closed, eofSeen, rdErr, dead, l, cs, docs, st, cur, open, nw, items, stale, early, kf, sid>>
-cvars == <<cs, docs, st, cur, open, nw, items, stale, early, kf, sid>>
+tvars == <<fr, total, maxb, got, k, closed, eofSeen, rdErr, dead, l, cs, docs, st, cur, open, nw, items, stale, early, kf, gerr, sid>>
+cvars == <<cs, docs, st, cur, open, nw, items, stale, early, kf, gerr, sid>>
 
 IsEv(e) == l <= Len(Rec) /\ Rec[l].ev = e /\ l' = l + 1
 
 \* the next call after `i' that expects replies (Len(cs) + 1 if none)
 RECURSIVE NextExpecting(_)
 NextExpecting(i) == IF i + 1 > Len(cs) THEN Len(cs) + 1
-                    ELSE IF cs[i + 1] # "oneway" THEN i + 1 ELSE NextExpecting(i + 1)
+                    ELSE IF cs[i + 1] \notin {"oneway", "om"} THEN i + 1 ELSE NextExpecting(i + 1)   \* "om": oneway and more
 NothingOwed == ~open /\ NextExpecting(cur) > Len(cs)
 
 TInit == /\ l = 1 /\ fr = <<>> /\ total = 0 /\ maxb = 0 /\ got = 0 /\ k = 0
          /\ closed = FALSE /\ eofSeen = FALSE /\ rdErr = FALSE /\ dead = FALSE
          /\ cs = <<>> /\ docs = <<>> /\ st = "build" /\ cur = 0 /\ open = FALSE /\ nw = 0
-         /\ items = 0 /\ stale = {} /\ early = {} /\ kf = FALSE /\ sid = ""
+         /\ items = 0 /\ stale = {} /\ early = {} /\ kf = FALSE /\ gerr = FALSE /\ sid = ""
 
 TReset == /\ IsEv("reset")
           /\ fr' = Rec[l].frames /\ total' = Rec[l].total /\ maxb' = Rec[l].MAXB
           /\ got' = 0 /\ k' = 0 /\ closed' = FALSE /\ eofSeen' = FALSE /\ rdErr' = FALSE /\ dead' = FALSE
           /\ cs' = Rec[l].calls /\ docs' = Rec[l].docs /\ st' = "build" /\ cur' = 0 /\ open' = FALSE /\ nw' = 0
-          /\ items' = 0 /\ stale' = {} /\ early' = {} /\ kf' = FALSE /\ sid' = Rec[l].sid
+          /\ items' = 0 /\ stale' = {} /\ early' = {} /\ kf' = FALSE /\ gerr' = FALSE /\ sid' = Rec[l].sid
 
-TSend == IsEv("send") /\ st = "build" /\ st' = "sending" /\ UNCHANGED <<fvars, cs, docs, cur, open, nw, items, stale, early, kf, sid>>
+TSend == IsEv("send") /\ st = "build" /\ st' = "sending" /\ UNCHANGED <<fvars, cs, docs, cur, open, nw, items, stale, early, kf, gerr, sid>>
 \* all calls reach the transport in one write, in chain order, each followed by one NUL
 TWrite == /\ IsEv("write") /\ st = "sending" /\ nw = 0
           /\ Rec[l].docs = docs /\ Rec[l].tail = 0
-          /\ nw' = 1 /\ UNCHANGED <<fvars, cs, docs, st, cur, open, items, stale, early, kf, sid>>
+          /\ nw' = 1 /\ UNCHANGED <<fvars, cs, docs, st, cur, open, items, stale, early, kf, gerr, sid>>
 TSent == IsEv("sent") /\ st = "sending" /\ nw = 1 /\ st' = "sent"
-         /\ UNCHANGED <<fvars, cs, docs, cur, open, nw, items, stale, early, kf, sid>>
+         /\ UNCHANGED <<fvars, cs, docs, cur, open, nw, items, stale, early, kf, gerr, sid>>
 
 \* a transport read: legitimate only while something is owed (or after the stream, for later exchanges)
 TChunk == /\ IsEv("chunk") /\ Hand(Rec[l].n)
           /\ (st = "sent" => ~NothingOwed)
           /\ stale' = 1..items
-          /\ UNCHANGED <<cs, docs, st, cur, open, nw, items, early, kf, sid>>
+          /\ UNCHANGED <<cs, docs, st, cur, open, nw, items, early, kf, gerr, sid>>
 TPending == IsEv("pending") /\ st = "sent" /\ ~NothingOwed /\ UNCHANGED <<fvars, cvars>>
 
 \* the stream yields an item: the next frame, answering the next call that expects a reply
@@ -84,9 +85,12 @@ TItem == /\ IsEv("item") /\ st = "sent" /\ ~NothingOwed
             IN /\ e.k = items + 1
                /\ Deliver(e.cls, e.canon)
                /\ e.cont = fr[k + 1].cont
-               /\ e.cls \in {"success", "method_err"}        \* conforming scripts only contain these
+               \* a reply that is reported as a general error (a standard service error, an error nobody
+               \* declared, parameters of the wrong type) still is the reply owed to that call: it ends it
+               /\ e.cls \in {"success", "method_err", "service_err", "decode_err"}
                /\ cur' = c
                /\ open' = (e.cls = "success" /\ e.cont)
+               /\ gerr' = (e.cls \in {"service_err", "decode_err"})
          /\ items' = items + 1
          /\ early' = IF \E j \in 0..Len(fr) : got = EndOf(j) THEN early ELSE early \cup {items + 1}
          /\ UNCHANGED <<cs, docs, st, nw, stale, kf, sid>>
@@ -100,16 +104,18 @@ TCheck == /\ IsEv("check")
                    \/ \A i \in 1..Len(e.changed) : \E j \in 1..Len(e.windows) :
                           e.windows[j][1] <= e.changed[i][1] /\ e.changed[i][2] <= e.windows[j][2]
                 /\ kf' = TRUE
-          /\ UNCHANGED <<fvars, cs, docs, st, cur, open, nw, items, stale, early, sid>>
+          /\ UNCHANGED <<fvars, cs, docs, st, cur, open, nw, items, stale, early, gerr, sid>>
 
-\* the stream ends exactly when nothing more is owed
-TStreamEnd == /\ IsEv("stream_end") /\ st = "sent" /\ NothingOwed
-              /\ st' = "ended" /\ UNCHANGED <<fvars, cs, docs, cur, open, nw, items, stale, early, kf, sid>>
+\* the stream ends exactly when nothing more is owed - or right after an item that was reported as a
+\* general error (reply_stream.rs gives up there; the replies it did not take stay with the connection
+\* and are received below).  If it carries on instead, TItem judges what it yields as usual.
+TStreamEnd == /\ IsEv("stream_end") /\ st = "sent" /\ (NothingOwed \/ gerr)
+              /\ st' = "ended" /\ UNCHANGED <<fvars, cs, docs, cur, open, nw, items, stale, early, kf, gerr, sid>>
 
 \* the consumer abandons the stream (at any point, also while it is suspended in the middle of a frame):
 \* whatever it did not take - frames and the bytes of a partial frame already read - stays with the connection
 TStreamDrop == /\ IsEv("stream_drop") /\ st = "sent"
-               /\ st' = "ended" /\ UNCHANGED <<fvars, cs, docs, cur, open, nw, items, stale, early, kf, sid>>
+               /\ st' = "ended" /\ UNCHANGED <<fvars, cs, docs, cur, open, nw, items, stale, early, kf, gerr, sid>>
 
 \* later exchanges on the same connection find their frames untouched
 TClose == IsEv("close") /\ Close /\ UNCHANGED cvars
